@@ -96,6 +96,7 @@ impl Policy {
 pub enum Out {
   Null,
   Num(i64),
+  Str(String),
   Row(Vec<(String, OutCell)>),
   List(Vec<Out>),
   Unspec,
@@ -119,6 +120,7 @@ impl Out {
     match self {
       Out::Null => "null".into(),
       Out::Num(n) => n.to_string(),
+      Out::Str(s) => format!("\"{}\"", s),
       Out::Row(es) => {
         let mut es: Vec<_> = es.iter().collect();
         es.sort_by(|a, b| a.0.cmp(&b.0));
@@ -225,7 +227,7 @@ impl Spec {
       } else {
         match &self.rules[i].1[0] {
           OutCell::Num(n) => Out::Num(*n),
-          OutCell::Str(_) => Out::Unspec,
+          OutCell::Str(s) => Out::Str(s.clone()),
         }
       }
     };
@@ -302,6 +304,23 @@ impl Spec {
       Policy::Sum | Policy::Min | Policy::Max => {
         if multi {
           return Out::Unspec;
+        }
+        // outputs that are not all numbers: the sum of anything but numbers is null; the least / greatest of strings
+        // is a string; a mix of kinds under MIN / MAX is left open
+        let strs: Vec<&String> = matched
+          .iter()
+          .filter_map(|i| match &self.rules[*i].1[0] {
+            OutCell::Str(s) => Some(s),
+            _ => None,
+          })
+          .collect();
+        if !strs.is_empty() {
+          return match self.policy {
+            Policy::Sum => Out::Null,
+            _ if strs.len() < matched.len() => Out::Unspec,
+            Policy::Min => Out::Str((*strs.iter().min().unwrap()).clone()),
+            _ => Out::Str((*strs.iter().max().unwrap()).clone()),
+          };
         }
         let nums: Vec<i64> = matched
           .iter()
@@ -451,6 +470,38 @@ fn family_b_specs(max_rules: usize) -> Vec<Spec> {
             }
           }
         }
+      }
+    }
+  }
+  out
+}
+
+/// Family B over outputs that are not all numbers: one output clause, 1..=3 rules, every assignment of the cells
+/// 1, 2, "a", "b" to the rules, every hit policy, every match vector. (A single matching rule under an aggregator still
+/// goes through the aggregator: C+ of one string is null, not the string.)
+fn family_b_other_kinds_specs() -> Vec<Spec> {
+  let mut out = vec![];
+  let alphabet = [OutCell::Num(1), OutCell::Num(2), OutCell::Str("a".into()), OutCell::Str("b".into())];
+  for n in 1..=3usize {
+    let total = alphabet.len().pow(n as u32);
+    for a in 0..total {
+      let mut assign = vec![];
+      let mut x = a;
+      for _ in 0..n {
+        assign.push(alphabet[x % alphabet.len()].clone());
+        x /= alphabet.len();
+      }
+      if assign.iter().all(|c| matches!(c, OutCell::Num(_))) {
+        continue; // family B proper
+      }
+      for policy in POLICIES {
+        let rules: Vec<(Vec<String>, Vec<OutCell>)> = (0..n)
+          .map(|i| {
+            let masks: Vec<String> = (0..(1u32 << n)).filter(|m| m & (1 << i) != 0).map(|m| m.to_string()).collect();
+            (vec![masks.join(",")], vec![assign[i].clone()])
+          })
+          .collect();
+        out.push(Spec { policy, inputs: vec![("m".to_string(), None)], outputs: vec![("o1".to_string(), None, None)], rules });
       }
     }
   }
@@ -803,7 +854,8 @@ pub fn run() {
     unspec: AtomicU64::new(0),
   };
   // family B
-  let b = family_b_specs(if thorough { 5 } else { 4 });
+  let mut b = family_b_specs(if thorough { 5 } else { 4 });
+  b.extend(family_b_other_kinds_specs());
   b.par_iter().for_each(|spec| {
     cnt.tables.fetch_add(1, Ordering::Relaxed);
     let n = spec.rules.len();
@@ -837,7 +889,9 @@ pub fn run() {
               1 => "one-match",
               _ => "several-matches",
             },
-            if !matches!(spec.policy, Policy::Priority | Policy::OutputOrder) {
+            if spec.rules.iter().any(|r| r.1.iter().any(|c| matches!(c, OutCell::Str(_)))) {
+              "outputs-not-all-numbers"
+            } else if !matches!(spec.policy, Policy::Priority | Policy::OutputOrder) {
               "-"
             } else if spec.outputs[0].1.is_some() {
               "with-output-values"
